@@ -167,6 +167,21 @@ void op_box1(boxin<N> const &a, std::vector<tup<N>> const &pts, std::vector<tup<
                      .raw("pts", jp.str()).raw("amounts", ja.str()).s);
   B const b = mkbox<T, N>(a.first, a.second);
   std::string out = ",\"pos\":" + jv<N>(b.pos()) + ",\"max\":" + jv<N>(b.max()) + ",\"size\":" + jv<N>(b.size());
+  {
+    // the non-const accessors: read through them, then write through them (corners exchanged) and
+    // look at the result through the const ones
+    B m(b);
+    out += ",\"mp\":" + jv<N>(m.pos()) + ",\"mm\":" + jv<N>(m.max());
+    B w(b);
+    w.pos() = b.max();
+    w.max() = b.pos();
+    B const &wc = w;
+    out += ",\"wp\":" + jv<N>(wc.pos()) + ",\"wm\":" + jv<N>(wc.max()) + ",\"ws\":" + jv<N>(wc.size());
+    B v(b);
+    v.max() = b.max();
+    B const &vc = v;
+    out += ",\"vp\":" + jv<N>(vc.pos()) + ",\"vm\":" + jv<N>(vc.max());
+  }
   // the other ways to build the same box
   bool proper = true;
   for (std::size_t i = 0; i < N; ++i) proper = proper && a.first[i] <= a.second[i];
